@@ -30,8 +30,8 @@ theorem hooks_step (l l' : Life) (o : Obs) (h : List Hook) (hs : lifeStep l o = 
     hooksAt l' (h ++ (hookName o).toList) := by
   cases l <;> cases o <;> simp only [lifeStep] at hs <;>
     (try (rename_i hk ok; cases hk <;> cases ok <;> simp only [lifeStep] at hs)) <;>
-    (try (split at hs)) <;> (try (split at hs)) <;>
-    simp_all [hooksAt, hookName]
+    (try (split at hs)) <;> (try (split at hs)) <;> (try (cases hs)) <;>
+    simp_all [hooksAt, hookName] <;> (rcases ha with rfl | rfl <;> simp)
 
 theorem hooks_along : ∀ (log : List Obs) (l l' : Life) (h : List Hook),
     lifeRun l log = some l' → hooksAt l h → hooksAt l' (h ++ hookNames log) := by
